@@ -85,14 +85,16 @@ func c09RaceOpen(o *out, rounds int) {
 		}
 		time.Sleep(time.Duration(2+r%5) * time.Millisecond)
 		px.killAll()
+		// (generous bounds: a channel that is never released stays unreleased for ever, a busy
+		// machine only delays the release)
 		select {
 		case <-conn.Closed().Wait():
-		case <-time.After(3 * time.Second):
+		case <-time.After(30 * time.Second):
 		}
 		stop.Store(true)
 		wg.Wait()
 		// every channel we got must be released
-		deadline := time.Now().Add(3 * time.Second)
+		deadline := time.Now().Add(15 * time.Second)
 		mu.Lock()
 		cs := chans
 		mu.Unlock()
